@@ -40,7 +40,9 @@ def cargo_build(workdir, args, env=None, timeout=3600):
     p = subprocess.run(cmd, cwd=workdir, env=cargo_env(env), stdout=subprocess.PIPE, stderr=subprocess.STDOUT, text=True, timeout=timeout)
     if p.returncode != 0:
         tail = "\n".join(l for l in p.stdout.splitlines() if not l.startswith("warning") )[-6000:]
-        raise MachineryError("cargo build failed in %s: %s\n%s" % (workdir, " ".join(cmd), tail))
+        e = MachineryError("cargo build failed in %s: %s\n%s" % (workdir, " ".join(cmd), tail))
+        e.full_output = p.stdout
+        raise e
     log("built %s in %.1fs" % (" ".join(args), time.time() - t0))
     return p.stdout
 
